@@ -166,6 +166,10 @@ func c08ReorgGate(c *rep.Ctx) {
 			if tv, has := info.Types[be.Y]; has && tv.IsNil() && an.FieldOf(info, be.X) == libF {
 				return "nolib", be.Op == token.NEQ, true
 			}
+			// a LIB numbered 0 is the genesis placeholder: every fork point is >= 0, so it is the same case
+			if tv, has := info.Types[be.Y]; has && tv.Value != nil && tv.Value.ExactString() == "0" && an.FieldOf(info, be.X) == noF && readsField(info, be.X, libF) {
+				return "nolib", be.Op == token.NEQ, true
+			}
 			return "", false, false
 		}
 		okT, how := g.GuardedAt(r, at, map[string]bool{"nolib": true})
@@ -291,7 +295,16 @@ func c08Formulas(c *rep.Ctx) {
 	// status.Update re-derives the threshold from the current producer set
 	if f := c.Fn("consensus/impl/dpos.(*Status).Update"); f != nil {
 		s := f.Graph().CallsTo("consensus/impl/dpos.(*libStatus).setConfirmsRequired")
-		ok := len(s) == 1 && containsCallTo(f.Info(), s[0].Call.Args[0], "consensus/impl/dpos/bp.(*Snapshots).Size")
+		ok := len(s) == 1
+		if ok {
+			arg := ast.Unparen(s[0].Call.Args[0])
+			if o := an.ObjOf(f.Info(), arg); o != nil {
+				if rhs, _ := f.Graph().SingleDef(o); rhs != nil {
+					arg = rhs
+				}
+			}
+			ok = containsCallTo(f.Info(), arg, "consensus/impl/dpos/bp.(*Snapshots).Size")
+		}
 		c.Check("threshold", "consensus/impl/dpos.(*Status).Update|producer-count", posOf(s), ok, "the threshold is recomputed from the size of the current producer set on every status update")
 	}
 	// calcLIB: sorted ascending by Plib.BlockNo, element (len-1)/3
